@@ -144,6 +144,34 @@ PROPS = {
                      'empty operands are outside the statement (observe-only stratum)'],
      'min_nontrivial': {'quick': 1000, 'thorough': 10000},
      'legs': {'thorough': [{'kind': 'asan', 'budget': 1500, 'shards': 4}]}},
+    'C08': {'budget': {'quick': 220000, 'thorough': 2000000},
+     'rule': 'One case = (scalar type f64|f32|i32|i64, integer coordinate sequence, power-of-two scale for floats, container type), a pure function of (seed, '
+             'shard, k). Strata: random multisets of 4-40 points on 3x3..8x8 lattices; points drawn from a few lattice lines; rows parallel to a chord (several '
+             'points equally far from it); boundary of a convex lattice polygon with many points on its edges plus interior points; 3-5 points on 2x2/3x3 '
+             '(trivial_hull path, max_idx special cases); Rect corners; degenerate (empty, 1-3 points, all identical, all collinear: observe-only); big '
+             "coordinates (random, near a long chord, 'thin cap' = lattice points whose determinant against a long chord is 1..40, circle, several nearly equally "
+             'far points on one ray from the lexicographic minimum) at magnitudes 2^24..2^53 (f64), 2^10..2^24 (f32), <=2^14 (i32), <=2^30 (i64, both without '
+             'overflow of 2*d^2); n = 100..20000 points. Lattice strata are moved by offsets up to 2^52 / 2^24 / i32::MAX / 2^62, reflected/transposed, floats '
+             'scaled by 2^-30..2^30. The same coordinates go to quick_hull, graham_hull(false), graham_hull(true) and, wrapped in one of 14 containers '
+             '(MultiPoint, LineString, Polygon with interior rings, MultiLineString, MultiPolygon, GeometryCollection incl. nested, Geometry, &[Coord], [Coord;4], '
+             '[Coord;6], Point, Line, Triangle, Rect), to ConvexHull::convex_hull and MinimumRotatedRect. Shard 0 additionally runs 7 fixed witnesses and the '
+             'exhaustive sub-spaces (every sequence of 4/5 points on 3x3, of 5 points on 5x2 and 2x5; thorough: also 6 on 3x3, 5 on 4x4, 6 on 5x2). A case is '
+             "NON-TRIVIAL iff the input has >= 3 non-collinear coordinates (the statement's domain), >= 4 distinct coordinates, and at least one input coordinate "
+             'that must be discarded: a duplicate, a point on a hull edge, or an interior point. DISTINCT = distinct FNV digests of (scalar type, scale, '
+             'coordinate sequence in input order); the container is not part of the digest.',
+     'assumptions': ["Coordinates are integers times a power of two, exactly representable in the scalar type; every verdict about geo's output is taken on the "
+                     'integer preimages with i128 determinants (exact).',
+                     "Integer scalar types are exercised only where 2*d^2 (d = largest coordinate difference) fits the type, i.e. where geo's SimpleKernel "
+                     'arithmetic cannot overflow (the statement: exact orientation decides).',
+                     'Inputs with fewer than 3 non-collinear coordinates are observe-only: what geo returns is recorded in `classes`, panics and hangs are '
+                     'violations, nothing else is judged.',
+                     'minimum_rotated_rect tolerances are K*u*E with u the unit roundoff of the scalar type and E the largest |input coordinate|; f32 inputs with '
+                     'E > 2^36 are observe-only (cubic centroid/area intermediates overflow f32).',
+                     "graham_hull(.., true), IsConvex and 'minimum_rotated_rect has the smallest area' are not in the statement; they are judged against what "
+                     "geo's own documentation promises (graham_on.*, isconvex.*, mrr.area_minimal) and can be switched off without touching the statement's "
+                     'clauses.',
+                     'A geo call that does not return within 10 s is a violation (hull.hang); the watchdog then writes the shard result and stops the shard.'],
+     'min_nontrivial': {'quick': 1000000, 'thorough': 10000000}},
     'C09': {'budget': {'quick': 100000, 'thorough': 330000},
      'rule': 'one case = one seeded lattice geometry (LineString 45 %, MultiLineString 15 %, Polygon 25 %, MultiPolygon 15 %; parts of 0-3, 4-12, 13-50, 51-300 '
              'and 1000 (thorough: 1000-10000) vertices drawn from 13 vertex-sequence strata: small-grid random walks with repeats / collinear runs / '
